@@ -5,8 +5,8 @@ import json, os
 HERE = os.path.dirname(os.path.dirname(os.path.abspath(__file__)))
 ASTAR_NOTE = ('Trusted: Coq kernel + vm_compute; the implementation-level model AStarImpl.v is hand-written and tied to parsing.h by trace validation '
               '(every pop with its in/out scores, span, head, rule index, the status and the goal cell of each run are replayed and accepted inside coqc); '
-              'driver.cpp/ctypes bridge; exact arithmetic on a dyadic score grid (float32 rounding of arbitrary reals not modelled); '
-              'heap tie-breaking abstracted (theorems hold for every maximal pop).')
+              'driver.cpp/ctypes bridge; exact arithmetic on a dyadic score grid (for arbitrary float32 reals only the epsilon-optimality of C01 is proved, with the slack measured per run); '
+              'theorems hold for every maximal pop; the library heap and push order are modelled separately (Heap.v/DSearch.v, tied in C11).')
 GLUE_NOTE = (' Glue: decy.py (fail-closed de-cythonizer of parsing.pyx) + its ctypes runtime run the real parsing.pyx/parsing.py; Glue.v tree_of is tied to '
              'retrieve_tree by exact comparison of every returned Tree.')
 
@@ -14,7 +14,10 @@ CHECKS = {
  'C01': ('A* optimality proved in Coq (Knuth lightest-derivation argument: priority = K - loss with additive non-negative losses; frontier invariant; refinement from an '
          'implementation-level model with stored scores to the abstract search): the first parse of every run the model accepts has maximum model score among all licensed '
          'complete derivations, failure only if none exists (or the step budget ran out), pop priorities never increase - for every sentence length, score matrix, head-uniform '
-         'grammar, root set, penalty >= 0, beam. The real search is tied to the model by replaying its pop trace inside coqc; an exhaustive-enumeration oracle searches for counterexamples.',
+         'grammar, root set, penalty >= 0, beam. The real search is tied to the model by replaying its pop trace inside coqc; an exhaustive-enumeration oracle searches for counterexamples. '
+         'Also proved: the same for the DETERMINISTIC twin of parse_sentence (literal libstdc++ heap + push order; P_DSearch.v, tied to the real traces in the C11 check), and for real-valued float32 '
+         'scores EPSILON-optimality under a pop rule with slack delta (rounded comparisons): first parse >= every derivation d minus delta*(nodes(d)+1), tight; delta is measured per run in exact '
+         'rational arithmetic, the run is replayed in the slack model inside coqc and the bound is checked against exhaustive enumeration (P_C01_approx.v, 17 theorems).',
          ASTAR_NOTE, 'Coq proof (invariants + refinement) + trace validation against parsing.h + exhaustive-enumeration oracle', 'DESIGN.md §4 C01'),
  'C02': ('Invariant proved in Coq: every item of the goal cell of every accepted run (1-best and n-best) is a complete licensed derivation (leaves = the tokens in order with beam-admitted '
          'tags, every node the k-th grammar result for its children, allowed root, no unary step at the full span); retrieve_tree consumes tokens left to right. Tied by trace validation and '
@@ -47,7 +50,8 @@ CHECKS = {
          'list for every max_chunk_size and processes >= 1; the memo layer (category table + rule cache) as a state machine keeps every cached entry equal to what the pure grammar returns now, ids are '
          'never reassigned; the search reading the memo incrementally IS the category-level search from every admissible history (both directions), so the outcome of a sentence - status, categories, '
          'rule indices, head flags, scores - is the same after any history, and a batch equals parsing each sentence alone (unconditional, iff); under a category-blind pop policy the batch is a '
-         'function of the batch; failures are local. PARTIAL: that std::priority_queue is a category-blind policy is read off operator< rather than derived; fork/pickling/completion order of '
+         'function of the batch; failures are local; the CONCRETE policy is modelled (Heap.v: libstdc++ sift-up/sift-down, differential against the real library; DSearch.v: deterministic twin predicting the real pop '
+         'trace, ties included) and proved category-blind (C11_d_search_is_category_blind). PARTIAL: the blind twin is proved for fixed rule functions, not threaded through the incremental memo; fork/pickling/completion order of '
          'multiprocessing are specified and exercised (real Pool), not proved. Oracle: real depccg.parsing.run with forking Pool, permutations/rotations/subsets/warming, failing sentences '
          '(length, step budget shared across a call, dead tags), malformed shapes with zero rule calls.',
          'Trusted: Glue.v/GlueMemo*.v/AStarEquiv*.v models (memo replay of logged callbacks, chunks exact, wrapper correspondence against the real run() with a probe parser), decy + driver to run the real code '
@@ -101,7 +105,7 @@ CHECKS = {
          'Coq refinement proof (stored fields = functions of the derivation) + trace validation + score-recomputation oracle', 'DESIGN.md §4 C09'),
  'C10': ('Proved in Coq for n-best mode (no head-uniformity needed): goal items are popped best first (sorted), each is a complete licensed derivation with its model score, and every complete '
          'derivation not returned scores no more than every returned one (top-k), the returned derivations are pairwise different (each derivation is created at most once), at most k are '
-         'returned and fewer than k only when the agenda is empty and every derivation was returned. The exhaustive-enumeration oracle (multiset of scores, duplicates, count) searches for counterexamples.', ASTAR_NOTE,
+         'returned and fewer than k only when the agenda is empty and every derivation was returned; the same for the deterministic twin (P_DSearch.v C10_d_results_are_the_best_in_order). The exhaustive-enumeration oracle (multiset of scores, duplicates, count) searches for counterexamples.', ASTAR_NOTE,
          'Coq proof (n-best frontier invariant, sortedness) + trace validation + exhaustive-enumeration oracle', 'DESIGN.md §4 C10'),
  'C12': ('Parser side: theorem that the tree built for a derivation labels each unary/binary node with op_string/op_symbol/head of exactly the rule_id-th cached result (Glue.v tied to '
          'retrieve_tree by exact tree comparison; A* invariants give the index validity). Reader side: guess_combinator_by_triplet is translated from the source on every run and proved to '
